@@ -639,3 +639,50 @@ def r20_order_free_loops(ctx):
                           'no break/return; stores only to fields of the ballot itself, to locals, and additive `+=`/`-=` accumulators',
                           'the result of this ballot loop depends on how the ballots are written (order / grouping of lines): %s at line %s' % (bad[0][0], bad[0][1].lineno) if bad else '')
     ctx.floor(R, 'ballot loops', n, 25)
+
+
+# ---------------------------------------------------------------------------
+# R54 QPQ: an election by quotient re-weights the winner's ballots before the next action is recorded
+# ---------------------------------------------------------------------------
+
+def r54_qpq_reweight(ctx):
+    """QPQ [2.5]: when a candidate is elected by quotient, each ballot standing to him now counts 1/quotient candidates elected.
+    The bookkeeping the property states - the fractional numbers of candidates elected by the ballots add up to the number
+    elected - needs that pass after EVERY quotient election, also the last one: every path from the elect call to the next
+    recorded action passes the loop that sets b.weight for the ballots whose top rank is the winner."""
+    R = 'R54'
+    qs = [ri for ri in rules(ctx) if ri.short == 'qpq']
+    need(len(qs) == 1, 'R54: rule class qpq not found')
+    ri = qs[0]
+    f, cfg = ri.count, ri.cfg
+    loop = ri.main_loop()
+    n = 0
+    for call in attr_calls(f, ('elect',)):
+        recv = call.func.value
+        if not isinstance(recv, ast.Name):
+            continue
+        lp, _ = deriv(ctx).for_binding(recv)
+        if lp is not None:
+            continue                       # elect-remaining sweeps: no quotient involved
+        en = cfg_node_of(ctx, f, call)
+        if en not in cfg.nodes_in(loop):
+            continue
+        n += 1
+        # the re-weighting loop for this winner
+        rew = set()
+        for node, which, filters, bvar in ballot_loops(ctx, f):
+            tf = _toprank_filter(filters, bvar)
+            if tf and tf[0] == 'eq' and tf[1] == recv.id and any(
+                    isinstance(x, ast.Assign) and isinstance(x.targets[0], ast.Attribute) and x.targets[0].attr == 'weight'
+                    and unparse(x.targets[0].value) == bvar for x in ast.walk(node)):
+                rew.add(cfg.of_stmt[node])
+        recs = {x for x in cfg.stmt_nodes() if x is not en and any(ctx.canon(c.func, f) in ('E.logAction', 'E.newRound') for c in calls_at(x))}
+        stops = recs | {cfg.exit, cfg.of_stmt[loop]}
+        r = cfg.reach([en], avoid=rew)
+        ok = bool(rew) and not (r & stops)
+        ctx.check(ok, R, call, f, 'a QPQ election by quotient is followed, before anything else is recorded, by the pass that re-weights the winner\'s ballots',
+                  'every path from `%s.elect(...)` to the next recorded action passes the loop over the ballots with topRank == %s.cid that sets b.weight'
+                  % (recv.id, recv.id),
+                  'after `%s.elect(...)` the count can record its next action (or end) without re-weighting the ballots that elected %s: the '
+                  'ballots\' fractional numbers of elected candidates no longer add up to the number elected' % (recv.id, recv.id))
+    ctx.floor(R, 'quotient elections', n, 1)
